@@ -798,5 +798,102 @@ theorem gd_plain (E : Bytes → Bytes → Bytes) (s : State) (file : Bytes) (sta
       · exact Or.inl (Or.inl (Or.inl (Or.inl (Or.inr h1))))
     rw [if_pos this, slice_slice _ _ _ _ _ hin, Nat.add_assoc]
 
+theorem wholeWith_length (E : Bytes → Bytes → Bytes) (k : Bytes) (iv : Nat) (region : Bytes) :
+    (wholeWith E k iv region).length = region.length := by simp [wholeWith, ctrAt]
+
+theorem slice_take_of_le (d : Bytes) (m off n : Nat) (h : off + n ≤ m) : slice (d.take m) off n = slice d off n := by
+  apply List.ext_getElem?; intro i
+  simp only [slice_getElem?, List.getElem?_take]
+  by_cases hi : i < n
+  · rw [if_pos hi, if_pos hi, if_pos (by omega)]
+  · rw [if_neg hi, if_neg hi]
+
+/-- **`get_data` serves slices of `secSrc`** — for every section, encrypted or not -/
+theorem gd_secSrc (E : Bytes → Bytes → Bytes) (s : State) (file : Bytes) (start : Nat) (sec off sz : Nat) (hsz : 0 < sz)
+    (h : off + sz ≤ (secSrc E s file start sec).length) :
+    getData E s file start sec off (sz : Int) = .ok (slice (secSrc E s file start sec) off sz) := by
+  unfold secSrc at h ⊢
+  unfold getData
+  cases hr : s.region? sec with
+  | none => rw [hr] at h; simp at h; omega
+  | some r =>
+    rw [hr] at h
+    simp only at h ⊢
+    -- in every branch the source is at most `r.size` long
+    have hin : off + sz ≤ r.size := by
+      by_cases hp : plainSec s sec = true
+      · rw [if_pos hp, slice_length] at h; omega
+      · rw [if_neg hp] at h
+        by_cases he : (sec == secExeFS) = true
+        · rw [if_pos he] at h
+          split at h <;> first | (rw [List.length_take] at h; omega) | (simp at h; omega)
+        · rw [if_neg he] at h
+          split at h
+          · rw [show ∀ k, ctrAt E k r.iv 0 (slice file (start + r.offset) r.size) = wholeWith E k r.iv (slice file (start + r.offset) r.size) from fun _ => rfl, wholeWith_length, slice_length] at h; omega
+          · simp at h; omega
+    rw [if_neg (show ¬ ((off : Int) + (sz : Int) > (r.size : Int)) by omega)]
+    rw [if_neg (show ¬ ((sz : Int) < 0) by omega)]
+    simp only [Int.toNat_natCast]
+    by_cases hp : plainSec s sec = true
+    · have hp' := hp
+      unfold plainSec at hp'
+      rw [if_pos hp', if_pos hp, slice_slice _ _ _ _ _ hin, Nat.add_assoc]
+    · have hp' : ¬ ((s.assumeDecrypted || s.flags.noCrypto || sec == secHeader || sec == secLogo || sec == secPlain || sec == secRaw) = true) := hp
+      rw [if_neg hp', if_neg hp]
+      by_cases he : (sec == secExeFS) = true
+      · rw [if_pos he, if_pos he]
+        rw [if_neg hp, if_pos he] at h
+        cases hv : openRaw s start secExeFS with
+        | error e => rw [hv] at h; simp at h; omega
+        | ok v =>
+          rw [hv] at h
+          cases v with
+          | merged o z iv segs =>
+            simp only at h ⊢
+            unfold mergedBytes
+            rw [slice_take_of_le _ _ _ _ hin]
+          | ctr key iv o z =>
+            simp only at h ⊢
+            rw [slice_take_of_le _ _ _ _ hin, ctrAt_slice]; rfl
+          | window o z =>
+            simp only at h ⊢
+            rw [slice_take_of_le _ _ _ _ hin]
+          | full => simp at h; omega
+      · rw [if_neg he, if_neg he]
+        rw [if_neg hp, if_neg he] at h
+        cases hk : normalKey s (if sec == secRomFS then 0x44 else s.mainSlot) with
+        | error e => rw [hk] at h; simp at h; omega
+        | ok k =>
+          rw [hk] at h
+          simp only at h ⊢
+          have : slice file (start + r.offset + off) sz = slice (slice file (start + r.offset) r.size) off sz := by
+            rw [slice_slice _ _ _ _ _ hin]
+          rw [this, ctrAt_slice]; rfl
+
+
+/-- the decidable geometry check (evaluated by the driver on every image) yields all hypotheses of the one-image theorem, with the
+    section plaintexts `secSrc` as sources -/
+theorem readGeom_of_b (E : Bytes → Bytes → Bytes) (s : State) (file : Bytes) (start : Nat) (N : Nat)
+    (h : readGeomB E s file start N = true) : ReadGeom E s file start (secSrc E s file start) N := by
+  unfold readGeomB at h
+  simp only [Bool.and_eq_true, List.all_eq_true, List.mem_range, decide_eq_true_eq, Bool.or_eq_true, bne_iff_ne] at h
+  obtain ⟨hap, hall⟩ := h
+  have hget : ∀ sec, sec < 9 →
+      ((List.range 9).map fun sec => (secSrc E s file start sec).length).getD sec 0 = (secSrc E s file start sec).length := by
+    intro sec hs
+    rw [List.getD_eq_getElem?_getD, List.getElem?_map, List.getElem?_range hs]
+    rfl
+  refine ⟨regionsDisjoint_of_apart s hap, fun sec off sz hsz hin => gd_secSrc E s file start sec off sz hsz hin, ?_, ?_⟩
+  · intro i hi
+    obtain ⟨⟨h1, h2⟩, _⟩ := hall i hi
+    rw [hget _ h2] at h1
+    exact h1
+  · intro i hi hh
+    obtain ⟨⟨_, _⟩, h3⟩ := hall i hi
+    rcases h3 with h3 | h3
+    · exact absurd hh h3
+    · rw [hget secHeader (by decide)] at h3
+      exact h3
+
 end Ncch
 end Pyctr
